@@ -4,6 +4,7 @@ import (
 	"fmt"
 	"strings"
 	"sync"
+	"sync/atomic"
 
 	"github.com/AdguardTeam/urlfilter"
 	"github.com/AdguardTeam/urlfilter/filterlist"
@@ -60,7 +61,7 @@ func c06Alphabet() (syms []c06Sym) {
 		c06Sym{s: srule{false, ".com^", []string{"important"}}},   // likewise, blocking
 		c06Sym{s: srule{false, "/x", []string{"domain=src.org"}}}, // domains table
 	)
-	for _, x := range []string{"urlblock", "genericblock", "document", "elemhide", "genericblock,jsinject", "urlblock,important", "genericblock,important", "urlblock,badfilter", "genericblock,badfilter", "stealth,urlblock", "stealth"} {
+	for _, x := range []string{"urlblock", "genericblock", "document", "elemhide", "genericblock,jsinject", "urlblock,important", "genericblock,important", "urlblock,badfilter", "genericblock,badfilter", "stealth,urlblock", "stealth", "important,document", "important,urlblock"} {
 		syms = append(syms, c06Sym{s: srule{true, c06SrcPat, strings.Split(x, ",")}, source: true})
 	}
 	syms = append(syms, c06Sym{s: srule{true, "||src.org/app/", []string{"urlblock"}}, source: true, onlyPath: "/app/"})
@@ -325,6 +326,73 @@ func c06Engine(c *Ctx, syms []c06Sym, set []int) (evals int64) {
 	return evals
 }
 
+// c06Composition: the engine's verdict for a request is the documented
+// precedence applied to the rules that match the request and the document-level
+// rules that match its referrer asked as a source-less document request --
+// whatever the request type and however request and referrer are related (the
+// same URL, the same host, another host, none).
+func c06Composition(c *Ctx) (evals int64) {
+	syms := []string{
+		"||ads.example.com^", "||ads.example.com^$important", "@@||ads.example.com^", "||ads.example.com^$domain=ads.example.com", "||ads.example.com^$domain=src.org",
+		"@@||ads.example.com^$urlblock", "@@||ads.example.com^$urlblock,domain=ads.example.com", "@@||ads.example.com^$genericblock,domain=ads.example.com", "@@||ads.example.com^$document",
+		"@@||src.org^$urlblock", "@@||src.org^$genericblock,domain=src.org", "@@||ads.example.com^$elemhide,domain=src.org", "||ads.example.com^$subdocument,third-party",
+	}
+	type rq struct {
+		url, src string
+		t        rules.RequestType
+	}
+	const u = "http://ads.example.com/x"
+	var reqs []rq
+	for _, t := range []rules.RequestType{rules.TypeDocument, rules.TypeSubdocument, rules.TypeScript} {
+		for _, src := range []string{"", u, "http://ads.example.com/other", "http://sub.ads.example.com/", "http://src.org/", "http://src.org/app/x"} {
+			reqs = append(reqs, rq{u, src, t})
+		}
+	}
+	var sets [][]int
+	for size := 1; size <= 3; size++ {
+		enum.Combinations(len(syms), size, func(s []int) bool {
+			sets = append(sets, append([]int{}, s...))
+			return true
+		})
+	}
+	var n atomic.Int64
+	c.parallel(len(sets), func(si int) {
+		var lines []string
+		for _, i := range sets[si] {
+			lines = append(lines, syms[i])
+		}
+		for _, rev := range []bool{false, true} {
+			ls := append([]string{}, lines...)
+			if rev {
+				for i, j := 0, len(ls)-1; i < j; i, j = i+1, j-1 {
+					ls[i], ls[j] = ls[j], ls[i]
+				}
+			}
+			st := stringStorage(joinLines(ls) + "\n")
+			e := urlfilter.NewEngine(st)
+			ne := urlfilter.NewNetworkEngine(st)
+			for _, q := range reqs {
+				n.Add(1)
+				got := e.MatchRequest(rules.NewRequest(q.url, q.src, q.t))
+				var srcRules []*rules.NetworkRule
+				if q.src != "" {
+					srcRules = ne.MatchAll(rules.NewRequest(q.src, "", rules.TypeDocument))
+				}
+				want := rules.NewMatchingResult(ne.MatchAll(rules.NewRequest(q.url, q.src, q.t)), srcRules)
+				g := renderNetText(got.BasicRule) + " / " + renderNetText(got.DocumentRule) + " / " + renderNetText(got.GetBasicResult())
+				w := renderNetText(want.BasicRule) + " / " + renderNetText(want.DocumentRule) + " / " + renderNetText(want.GetBasicResult())
+				if g != w {
+					c.Run.Violate(ev.Violation{Pred: "engine-verdict-is-precedence-over-request-and-referrer-rules", Sig: map[string]any{"lines": ls, "url": q.url, "source": q.src, "type": int(q.t)},
+						What:   fmt.Sprintf("Engine.MatchRequest over %v for %s from %q (type %d): basic/document/result = %s; precedence over the rules matching the request and the source-less referrer lookup gives %s", ls, q.url, q.src, q.t, g, w),
+						Replay: map[string]any{"composition": true}})
+					return
+				}
+			}
+		}
+	})
+	return n.Load()
+}
+
 func init() {
 	register("C06", "exploration", func(c *Ctx) {
 		syms := c06Alphabet()
@@ -333,6 +401,10 @@ func init() {
 			parsed[i] = s.s.parse()
 		}
 		if c.Replay != nil {
+			if cp, _ := c.Replay["composition"].(bool); cp {
+				c06Composition(c)
+				return
+			}
 			if lines, ok := c.Replay["lines"].([]any); ok {
 				var set []int
 				for _, l := range lines {
@@ -421,6 +493,8 @@ func init() {
 		c.Run.Set("engine_evaluations", engEvals)
 		c.Run.Set("evaluations", evals+engEvals)
 		c.Run.Set("distinct_nontrivial", nontrivial)
+		compEvals := c06Composition(c)
+		c.Run.Set("composition_evaluations", compEvals)
 		c.Run.Set("rule", fmt.Sprintf("every multiset of <=%d rules over %d symbols (request-level: exception x important x $domain, $dnsrewrite, $badfilter twins, $stealth; referrer-level: urlblock/genericblock/document/elemhide/+important/+badfilter), request- and referrer-level lists each in every distinct permutation, through NewMatchingResult and GetDNSBasicRule; every set of <=3 symbols in every line order and every split into two lists through Engine, NetworkEngine and DNSEngine; non-trivial = at least two rules", maxSize, len(syms)))
 		c.Run.Set("exhaustive", exhaustive)
 		c.Run.Assumption("ties inside a class are not compared; only the verdict class is")
